@@ -385,6 +385,20 @@ example : ∃ wss, evalChain st [[.interval (rd i) (lit 3), .interval (lit 2) (l
     cAccess (wss.foldl cWindow vA.repr) [1] = 16 :=
   window_chain_access (σ := st) (v := vA) (ds := [(2, 1)]) (o := 15) rfl rfl
 
+/-- FINDING (stride of a renamed window): `comp_cir` prints `CIR.Stride(name, dim)` as
+    `f"{e.name}.strides[{e.dim}]"` — with the symbol's own name, not with the C identifier that
+    `new_varname` chose (`env[e.name]`).  For a window symbol `w` that had to be renamed to `w_1`
+    the emitted access is `w_1.data[i * w.strides[0]]`: the strides of ANOTHER variable.  The
+    injectivity of names proved above therefore does not carry over to stride references.
+    Reproduced on the real code by `ccpipe.EXTRA["x_inline_win"]` (inline a callee that declares a
+    window `w` into a caller that has its own `w`). -/
+theorem comp_stride_ignores_env_witness :
+    let w2 : Sym := ⟨"w", 9⟩
+    let env : Sym → String := fun s => if s = w2 then "w_1" else s.name
+    env w2 = "w_1" ∧ comp env (.bin .mul (.read i true) (.stride w2 0) true) 0 = "i * w.strides[0]" := by
+  decide
+
+
 /-- a freshly allocated buffer / a dense tensor argument is represented by the pointer itself
     with the row-major strides of `tensor_strides` -/
 theorem alloc_repr (b : Nat) (sh : List Int) :
